@@ -195,7 +195,13 @@ impl Iterator for ManiaGradualDifficulty {
 
 impl ExactSizeIterator for ManiaGradualDifficulty {
     fn len(&self) -> usize {
-        self.diff_objects.len() + 1 - self.idx
+        // Without any objects there is neither a difficulty object nor a first
+        // object that could be processed without one.
+        if self.objects_is_circle.is_empty() {
+            0
+        } else {
+            self.diff_objects.len() + 1 - self.idx
+        }
     }
 }
 
